@@ -1011,7 +1011,13 @@ impl World {
                     rep.bump("e1/atomicity/err_state_unchanged_checks");
                     rep.add("e1/atomicity/bytes_compared", before.iter().map(|(k, v)| k.len() + v.len()).sum::<usize>() as u64);
                     if after != before {
-                        discs.push(Disc { props: vec!["C01"], sig: format!("failed-{}-left-state-changes", kind), detail: format!("{:?}: {:?}", short_op(op), rawstate::diff(&before, &after)) });
+                        // balances that moved and did not move back: attached funds are returned if the call fails (C05)
+                        let bank_of = |r: &rawstate::Raw| r.iter().filter(|(k, _)| rawstate::module_of(k) == "bank").cloned().collect::<Vec<_>>();
+                        let mut props = vec!["C01"];
+                        if bank_of(&before) != bank_of(&after) && op_features(op).funds {
+                            props.push("C05");
+                        }
+                        discs.push(Disc { props, sig: format!("failed-{}-left-state-changes", kind), detail: format!("{:?}: {:?}", short_op(op), rawstate::diff(&before, &after)) });
                         // what App queries show now: the committed state is still the one before the failed call
                         if let Some(detail) = app_queries_vs_committed(&self.app, &before, rep) {
                             discs.push(Disc { props: vec!["C10"], sig: format!("app-query-observes-effects-of-failed-{}", kind), detail: format!("{:?}: {}", short_op(op), detail) });
